@@ -19,6 +19,8 @@
        The zero-distance handling of the code IS the `+ 1e-6`; there is no other branch.
   4. `nnRow` / `idwRow` / `remapRows`   — one row (= one leading-dimension index) of the result,
        and all rows (every leading index is treated identically: `source_data[..., idx]`).
+       `GridView` / `remapNN` / `remapIDW`: a remap sees the two grids only through the centre
+       coordinates they report (not through identity or `Grid.__eq__`).
   5. decidable specifications evaluated by the driver on the IMPLEMENTATION's output:
        `nnSpecB`, `withinB` (convexity), `weightsOkB`.
   6. metrics (`sphDeg` = sklearn haversine reported in degrees, `chord` = Euclidean on unit
@@ -204,6 +206,39 @@ def idwRow {P : Type} (dist : P → P → K) (pw : K → K) (eps : K) (k : Nat) 
   dst.map (fun q => idwAt pw eps k (src.map (dist q)) row)
 
 end Rows
+
+/-! ## 4b. what a remap may look at: the centre coordinates the two grids report, nothing else -/
+
+/-- what is observable of a `Grid` object: its identity, everything `Grid.__eq__` compares
+    (`source_grid_spec`, `node_lon`, `node_lat`, `face_node_connectivity` — abstracted to a key),
+    and the centre coordinates it reports for each element kind (which also depend on optional
+    source-supplied tables: `edge_node_connectivity`, `face_lon/lat`, `edge_lon/lat`, …). -/
+structure GridView (P : Type) where
+  ident : Nat
+  eqKey : Nat
+  pts : Kind → List P
+
+section Views
+variable {K : Type} [LE K] [DecidableLE K] {P : Type}
+
+/-- nearest-neighbour remap between two grids: a function of (source centre coordinates of the
+    data's kind, destination centre coordinates of the requested kind) ONLY -/
+def remapNN (dist : P → P → K) (S D : GridView P) (sk dk : Kind) (row : List K) : List (Option K) :=
+  nnRow dist (S.pts sk) (D.pts dk) row
+
+/-- the shape of a shortcut that is NOT the model: "same kind and the grids compare equal ⇒ every
+    element is its own nearest neighbour" (see `UxVerif.C12.shortcut_on_equal_grids_wrong`) -/
+def remapNNShortcut (dist : P → P → K) (S D : GridView P) (sk dk : Kind) (row : List K) :
+    List (Option K) :=
+  if sk = dk ∧ S.eqKey = D.eqKey then row.map some else remapNN dist S D sk dk row
+
+variable [Add K] [Mul K] [Div K] [OfNat K 0] [OfNat K 1]
+
+def remapIDW (dist : P → P → K) (pw : K → K) (eps : K) (k : Nat) (S D : GridView P) (sk dk : Kind)
+    (row : List K) : List K :=
+  idwRow dist pw eps k (S.pts sk) (D.pts dk) row
+
+end Views
 
 /-! ## 5. float-tolerant decidable specifications (driver side) -/
 
